@@ -1,6 +1,7 @@
 import Lean.Data.Json
 import PintModel.Model.LabelFlow
 import PintModel.Props.C12
+import PintModel.Model.StaticFlow
 namespace Driver.C04
 open Lean Pint.LabelFlow
 
@@ -126,6 +127,40 @@ def lfjoined (args : List String) : String :=
       let ml := (m.splitOn ",").filter (· != "")
       if (joined U (on == "true") ml (exprOf l) (exprOf r)).isEmpty then "empty" else "nonempty"
     | _, _ => "bad-op"
+  | _ => "bad-op"
+
+open Pint.StaticFlow in
+partial def seOf (j : Json) : SE :=
+  let k := (j.getObjValD "k").getStr?.toOption.getD ""
+  let opOf : String → Op := fun s => match s with
+    | "+" => .add | "-" => .sub | "*" => .mul | "==" => .eq | "!=" => .ne | "<=" => .le | "<" => .lt | ">=" => .ge | _ => .gt
+  match k with
+  | "num" => .num ((j.getObjValD "v").getInt?.toOption.getD 0)
+  | "sel" => .sel
+  | "vector" => .vector (seOf (j.getObjValD "e"))
+  | "neg" => .neg (seOf (j.getObjValD "e"))
+  | _ => .bin (opOf ((j.getObjValD "op").getStr?.toOption.getD "")) ((j.getObjValD "bool").getBool?.toOption.getD false)
+      (seOf (j.getObjValD "l")) (seOf (j.getObjValD "r"))
+
+/-- op: lfstatic <SE json> → always known num|- dead -/
+def lfstatic (args : List String) : String :=
+  match args with
+  | [js] => match Json.parse js with
+    | .error _ => "bad-op"
+    | .ok j =>
+      let st := Pint.StaticFlow.static (seOf j)
+      s!"{st.always} {st.known} " ++ (if st.known then toString st.num else "-") ++ s!" {st.dead}"
+  | _ => "bad-op"
+
+/-- op: lfeval <SE json> → s:k | v:k | v:none (closed expressions) -/
+def lfeval (args : List String) : String :=
+  match args with
+  | [js] => match Json.parse js with
+    | .error _ => "bad-op"
+    | .ok j => match Pint.StaticFlow.eval (seOf j) with
+      | .s k => s!"s:{k}"
+      | .v (some k) => s!"v:{k}"
+      | .v none => "v:none"
   | _ => "bad-op"
 
 end Driver.C04
